@@ -10,6 +10,7 @@ import (
 
 	wio "github.com/whatap/golib/io"
 	"github.com/whatap/golib/util/hmap"
+	"verif/gen"
 	"verif/ref"
 )
 
@@ -24,6 +25,16 @@ func drain[T any](has func() bool, next func() T, limit int) ([]T, error) {
 		out = append(out, next())
 	}
 	return out, nil
+}
+
+// overlapping starts the enumeration that is going to be audited, then starts and advances a second enumeration of
+// the same structure: enumerations are independent of each other (starting one is not a modification).
+func overlapping[E interface{ HasMoreElements() bool }](mk func() E, step func(E)) E {
+	en := mk()
+	if o := mk(); o.HasMoreElements() {
+		step(o)
+	}
+	return en
 }
 
 func tableLenOf(p interface{}) func() int {
@@ -511,8 +522,8 @@ func encodeWith[K any](alpha []K, encKey func(w *ref.W, k K), encVal func(w *ref
 func registerAll() {
 	a32 := newKeyset(int32Alphabet())
 	a64 := newKeyset(int64Alphabet())
-	aCRC := newKeyset(stringAlphabet(crcHash))
-	aJH := newKeyset(stringAlphabet(javaHash))
+	aCRC := newKeyset(stringAlphabet(crcHash, [4]string{gen.HashTwins[0], gen.HashTwins[1], gen.HashTwins[2], gen.HashTwins[3]}))
+	aJH := newKeyset(stringAlphabet(javaHash, [4]string{"Aa", "BB", "AaBB", "BBAa"}))
 	aLK := newKeyset(lkAlphabet())
 
 	neg32, ext32 := negExt(a32.alpha, nSpecial32, math.MinInt32, math.MaxInt32)
@@ -598,7 +609,9 @@ func registerAll() {
 				m = hmap.NewLinkedMapDefault()
 			}
 			return mkIfaceMap[hmap.LinkedKey](m, kLK,
-				func(limit int) ([]int, error) { return lkKeys(m.Keys(), limit) },
+				func(limit int) ([]int, error) {
+					return lkKeys(overlapping(m.Keys, func(e hmap.Enumeration) { e.NextElement() }), limit)
+				},
 				func(n int) { m.SetMax(n) },
 				func(x interface{}) (hmap.LinkedKey, interface{}, bool) {
 					e, ok := x.(*hmap.LinkedEntry)
@@ -628,7 +641,9 @@ func registerAll() {
 				m = hmap.NewIntKeyLinkedMapDefault()
 			}
 			in := mkIfaceMap[int32](m, k32,
-				func(limit int) ([]int, error) { return intKeys(m.Keys(), limit) },
+				func(limit int) ([]int, error) {
+					return intKeys(overlapping(m.Keys, func(e hmap.IntEnumer) { e.NextInt() }), limit)
+				},
 				func(n int) { m.SetMax(n) },
 				func(x interface{}) (int32, interface{}, bool) {
 					e, ok := x.(*hmap.IntKeyLinkedEntry)
@@ -648,7 +663,7 @@ func registerAll() {
 				if set.Size() > limit {
 					return nil, fmt.Errorf("GetKeySet holds %d keys", set.Size())
 				}
-				return intKeys(set.Keys(), limit)
+				return intKeys(overlapping(set.Keys, func(e hmap.IntEnumer) { e.NextInt() }), limit)
 			}
 			in.keys["toKeySet"] = func(limit int) ([]int, error) {
 				var l *list.List = m.ToKeySet()
@@ -697,7 +712,9 @@ func registerAll() {
 				m = hmap.NewLongKeyLinkedMapDefault()
 			}
 			return mkIfaceMap[int64](m, k64,
-				func(limit int) ([]int, error) { return longKeys(m.Keys(), limit) },
+				func(limit int) ([]int, error) {
+					return longKeys(overlapping(m.Keys, func(e hmap.LongEnumer) { e.NextLong() }), limit)
+				},
 				func(n int) { m.SetMax(n) },
 				func(x interface{}) (int64, interface{}, bool) {
 					e, ok := x.(*hmap.LongKeyLinkedEntry)
@@ -720,7 +737,9 @@ func registerAll() {
 		s.mk = func(c *Case) *inst {
 			m := hmap.NewStringKeyLinkedMap()
 			return mkIfaceMap[string](m, kCRC,
-				func(limit int) ([]int, error) { return strKeys(aCRC, m.Keys(), limit) },
+				func(limit int) ([]int, error) {
+					return strKeys(aCRC, overlapping(m.Keys, func(e hmap.StringEnumer) { e.NextString() }), limit)
+				},
 				func(n int) { m.SetMax(n) },
 				func(x interface{}) (string, interface{}, bool) {
 					e, ok := x.(*hmap.StringKeyLinkedEntry)
@@ -751,7 +770,9 @@ func registerAll() {
 		s.mk = func(c *Case) *inst {
 			m := hmap.NewIntIntLinkedMap()
 			in := mkNumMap[int32, int32](m, k32, i32c, numExtra[int32, int32]{
-				keys: func(limit int) ([]int, error) { return intKeys(m.Keys(), limit) },
+				keys: func(limit int) ([]int, error) {
+					return intKeys(overlapping(m.Keys, func(e hmap.IntEnumer) { e.NextInt() }), limit)
+				},
 				values: func(limit int) ([]ret, error) {
 					en := m.Values()
 					xs, err := drain(en.HasMoreElements, en.NextInt, limit)
@@ -796,7 +817,9 @@ func registerAll() {
 		s.mk = func(c *Case) *inst {
 			m := hmap.NewIntFloatLinkedMap()
 			in := mkNumMap[int32, float32](m, k32, f32c, numExtra[int32, float32]{
-				keys: func(limit int) ([]int, error) { return intKeys(m.Keys(), limit) },
+				keys: func(limit int) ([]int, error) {
+					return intKeys(overlapping(m.Keys, func(e hmap.IntEnumer) { e.NextInt() }), limit)
+				},
 				values: func(limit int) ([]ret, error) {
 					en := m.Values()
 					xs, err := drain(en.HasMoreElements, en.NextFloat, limit)
@@ -841,7 +864,9 @@ func registerAll() {
 		s.mk = func(c *Case) *inst {
 			m := hmap.NewLongFloatLinkedMap()
 			in := mkNumMap[int64, float32](m, k64, f32c, numExtra[int64, float32]{
-				keys: func(limit int) ([]int, error) { return longKeys(m.Keys(), limit) },
+				keys: func(limit int) ([]int, error) {
+					return longKeys(overlapping(m.Keys, func(e hmap.LongEnumer) { e.NextLong() }), limit)
+				},
 				values: func(limit int) ([]ret, error) {
 					en := m.Values()
 					xs, err := drain(en.HasMoreElements, en.NextFloat, limit)
@@ -892,7 +917,9 @@ func registerAll() {
 				m = hmap.NewLongLongLinkedMapDefault()
 			}
 			in := mkNumMap[int64, int64](m, k64, i64c, numExtra[int64, int64]{
-				keys: func(limit int) ([]int, error) { return longKeys(m.Keys(), limit) },
+				keys: func(limit int) ([]int, error) {
+					return longKeys(overlapping(m.Keys, func(e hmap.LongEnumer) { e.NextLong() }), limit)
+				},
 				values: func(limit int) ([]ret, error) {
 					en := m.Values()
 					xs, err := drain(en.HasMoreElements, en.NextLong, limit)
@@ -929,7 +956,9 @@ func registerAll() {
 		s.mk = func(c *Case) *inst {
 			m := hmap.NewStringIntLinkedMap()
 			return mkNumMap[string, int32](m, kCRC, i32c, numExtra[string, int32]{
-				keys: func(limit int) ([]int, error) { return strKeys(aCRC, m.Keys(), limit) },
+				keys: func(limit int) ([]int, error) {
+					return strKeys(aCRC, overlapping(m.Keys, func(e hmap.StringEnumer) { e.NextString() }), limit)
+				},
 				values: func(limit int) ([]ret, error) {
 					en := m.Values()
 					xs, err := drain(en.HasMoreElements, en.NextElement, limit)
@@ -962,7 +991,9 @@ func registerAll() {
 		s.mk = func(c *Case) *inst {
 			m := hmap.NewStringLongLinkedMap()
 			return mkNumMap[string, int64](m, kCRC, i64c, numExtra[string, int64]{
-				keys: func(limit int) ([]int, error) { return strKeys(aCRC, m.Keys(), limit) },
+				keys: func(limit int) ([]int, error) {
+					return strKeys(aCRC, overlapping(m.Keys, func(e hmap.StringEnumer) { e.NextString() }), limit)
+				},
 				values: func(limit int) ([]ret, error) {
 					en := m.Values()
 					xs, err := drain(en.HasMoreElements, en.NextElement, limit)
@@ -994,7 +1025,9 @@ func registerAll() {
 		s.mk = func(c *Case) *inst {
 			m := hmap.NewLinkedSet()
 			return mkSet[hmap.LinkedKey](m, kLK, setRet(kLK.from, strLK),
-				func(limit int) ([]int, error) { return lkKeys(m.Keys(), limit) },
+				func(limit int) ([]int, error) {
+					return lkKeys(overlapping(m.Keys, func(e hmap.Enumeration) { e.NextElement() }), limit)
+				},
 				m.KeyArray, func(n int) { m.SetMax(n) }, m)
 		}
 		register(s)
@@ -1010,7 +1043,9 @@ func registerAll() {
 		s.mk = func(c *Case) *inst {
 			m := hmap.NewIntLinkedSet()
 			return mkSet[int32](m, k32, setRet(k32.from, str32),
-				func(limit int) ([]int, error) { return intKeys(m.Keys(), limit) },
+				func(limit int) ([]int, error) {
+					return intKeys(overlapping(m.Keys, func(e hmap.IntEnumer) { e.NextInt() }), limit)
+				},
 				m.KeyArray, func(n int) { m.SetMax(n) }, m)
 		}
 		register(s)
@@ -1029,7 +1064,9 @@ func registerAll() {
 		s.mk = func(c *Case) *inst {
 			m := hmap.NewStringLinkedSet()
 			in := mkSet[string](m, kJH, setRet(kJH.from, strJH),
-				func(limit int) ([]int, error) { return strKeys(aJH, m.Keys(), limit) },
+				func(limit int) ([]int, error) {
+					return strKeys(aJH, overlapping(m.Keys, func(e hmap.StringEnumer) { e.NextString() }), limit)
+				},
 				m.GetArray, func(n int) { m.SetMax(n) }, m)
 			in.put["unipoint"] = func(k int, _ int64) ret {
 				got := m.Unipoint(aJH.alpha[k])
